@@ -192,7 +192,37 @@ def one_history(ctx: Ctx, out: Outcome, key: str, h: int, nsteps: int):
     mon = Monitor(out, ctx)
     tie = S.IndexTie()
     obs = [mon, TieObserver(out, tie, mon)]
-    model = S.run_history(ctx, out, key, nsteps, obs, hist_id=h)
+    model = S.run_history(ctx, out, key, nsteps, obs, hist_id=h, weights={"assign": 2})
+    # a rejected assignment to a uniqueness-enforcing link relation (the roll-back restores the old link
+    # elements: they must be findable again)
+    import objops as _oo
+    import random as _r
+    rng2 = _r.Random(f"c03u:{ctx.seed}:{key}:{h}")
+    urels = [r for r in _oo.discover(model, rng2, max_objs=ctx.pick(250, 600))
+             if type(r.acc).__name__ == "LinkAccessor" and getattr(r.acc, "unique", False) and getattr(r.acc, "tag", None)]
+    done = 0
+    for r in urels:
+        try:
+            members = list(r.get())
+        except Exception:  # noqa: BLE001
+            continue
+        if not members:
+            continue
+        before = ol.raw_scan(model._loader)
+        try:
+            setattr(r.owner, r.attr, [*members, members[0]])
+            outcome = "ok"
+        except Exception as e:  # noqa: BLE001
+            outcome = type(e).__name__
+        after = ol.raw_scan(model._loader)
+        rec = S.StepRecord(10**6 - 3 - done, _oo.Step("assign_dup", r, {"new_uuids": [m.uuid for m in members] + [members[0].uuid]}, lambda: None), outcome, before, after)
+        out.hit(f"op.assign_dup.{outcome}")
+        tie.apply((key, "assign_dup", done), S.diff_ops(S.scan_rows(before), S.scan_rows(after), tie.frag_index))
+        mon.step(rec, model)
+        tie.dump((key, "after-assign-dup", done), model._loader)
+        done += 1
+        if done >= 2:
+            break
     # viewpoint activation (writes a viewpointReferences element into the .afm, whose ids are not indexed)
     if h % 2 == 1:
         import objops
